@@ -147,3 +147,31 @@ impl<'a> VxSplitChar<'a> {
 pub fn vx_split_char<'a>(s: &'a str, c: char) -> (r: VxSplitChar<'a>)
     ensures r@ == split_char(s@, c), r@.len() >= 1
 { unimplemented!() }
+
+/// `Option::map_or_else(default, f)` (body verified)
+pub fn vx_map_or_else<T, U, D: FnOnce() -> U, F: FnOnce(T) -> U>(o: Option<T>, default: D, f: F) -> (r: U)
+    requires
+        o is None ==> call_requires(default, ()),
+        o is Some ==> call_requires(f, (o->Some_0,)),
+    ensures
+        match o { Some(x) => call_ensures(f, (x,), r), None => call_ensures(default, (), r) }
+{
+    match o { Some(x) => f(x), None => default() }
+}
+
+/// `Option::and_then(f)` (body verified)
+pub fn vx_and_then<T, U, F: FnOnce(T) -> Option<U>>(o: Option<T>, f: F) -> (r: Option<U>)
+    requires o is Some ==> call_requires(f, (o->Some_0,))
+    ensures match o { Some(x) => call_ensures(f, (x,), r), None => r is None }
+{
+    match o { Some(x) => f(x), None => None }
+}
+
+/// `Option::filter(pred)`
+pub assume_specification<T, P: FnOnce(&T) -> bool> [Option::<T>::filter] (o: Option<T>, pred: P) -> (r: Option<T>)
+    requires o is Some ==> call_requires(pred, (&o->Some_0,))
+    ensures
+        match o {
+            Some(x) => (call_ensures(pred, (&x,), true) && r == Some(x)) || (call_ensures(pred, (&x,), false) && r is None),
+            None => r is None,
+        };
